@@ -147,7 +147,9 @@ def main(chk):
     quick = chk.tier == 'quick'
     n = 240 if quick else 3000
     from harness import viral
-    nested = viral.nested_units(rnd, n // 3)         # dataset-dataset operators, aggregations and set operators nested in one expression
+    pool = viral.nested_units(rnd, 3 * n)            # dataset-dataset operators, aggregations and set operators nested in one expression
+    sets = [u for u in pool if u['term']['k'] == 'set' and len([c for c in u['env']['DS_1']['comps'] if c['r'] == 'I']) > 1]
+    nested = sets[:n // 4] + [u for u in pool if u['term']['k'] != 'set'][:n // 5]
     for j, u in enumerate(nested):
         u['id'] = 'nest%d' % j
     base = variants.mixed_units(rnd, n) + termgen.random_join_units(rnd, n // 6) + termgen.random_analytic_units(rnd, n // 8) + nested
